@@ -1,3 +1,104 @@
-From Scales Require Import Model.Base Model.Heap Model.Balancer.
-Theorem C03_stub : True. Proof. exact I. Qed.
-Print Assumptions C03_stub.
+(* C03 - Balancer sends each request to a least-loaded open member.
+   Statements only; proofs are in Proofs/HeapP.v and Proofs/BalancerP.v.  Every theorem quantifies over all
+   label sequences (Init/Join/Leave/Dispatch/Complete with any randint outcome/SetChan), i.e. over every
+   history of dispatches, completions in any order, members going down and coming back, joining and
+   leaving, and every outcome of the balancer's random choices; no bound on members or steps. *)
+From Coq Require Import ZArith List Bool Lia.
+From Scales Require Import Model.Base Model.Heap Model.Balancer Proofs.HeapP Proofs.BalancerP.
+Import ListNotations.
+Local Open Scope Z_scope.
+
+(* requests dispatched to node n whose release (PutWrapper) has not run yet *)
+Definition outstanding (s : state) (n : Z) : Z := out_of (reqs s) n.
+(* the members the balancer is using: nodes in the heap *)
+Definition member (s : state) (n : Z) : Prop := In n (map nid (heap s)).
+Definition is_open (s : state) (n : Z) : Prop := lookup_chan s n = ST_OPEN.
+
+(* The heap order load(parent) <= load(child), one node per channel, and load = Idle + outstanding
+   (+ Penalty iff the node is on the down list) hold in every reachable state.  The proof of the first
+   part needs the FixUp after FixDown in __Put/_RemoveSink (hole_fix_down / okl_remove): F3. *)
+Theorem C03_heap_inv : forall s0 ls, let s := run (init_state s0) ls in
+  ok load (to_fun dummy (heap s)) (length (heap s)) /\
+  NoDup (map nid (heap s)) /\
+  NoDup (downq s) /\
+  (forall y, In y (heap s) ->
+     load y = Idle + outstanding s (nid y) + (if memz (nid y) (downq s) then Penalty else 0)).
+Proof.
+  intros s0 ls s. destruct (inv_run ls _ (init_state_inv s0)) as [C _]. fold s in C.
+  destruct (core_HS s C) as (H1 & H2 & H3 & H4). repeat split; assumption.
+Qed.
+Print Assumptions C03_heap_inv.
+
+(* A dispatched request goes to a member, carries that member's endpoint, and - when some member's channel is
+   open - that member is open and has the fewest outstanding requests among all open members. *)
+Theorem C03_least_loaded : forall s0 ls s' n ep ev, let s := run (init_state s0) ls in
+  step s Dispatch = (s', (RSent n ep, ev)) ->
+  (forall m, member s m -> outstanding s m < Penalty) ->
+  (exists y, In y (heap s) /\ nid y = n /\ nep y = ep) /\
+  ((exists m, member s m /\ is_open s m) ->
+   is_open s n /\ forall m, member s m -> is_open s m -> outstanding s n <= outstanding s m).
+Proof.
+  intros s0 ls s' n ep ev s D B. destruct (inv_run ls _ (init_state_inv s0)) as [C _]. fold s in C.
+  cbn [step] in D. destruct (dispatch_choice s s' n ep ev C D) as (H1 & H2 & H3 & _).
+  split; [exact H1|]. intros (m & Hm & Ho).
+  destruct (Z.eq_dec (lookup_chan s n) ST_OPEN) as [E|E].
+  - split; [exact E|]. intros m' Hm' Ho'. apply H2; assumption.
+  - exfalso. pose proof (H3 E m Hm Ho). pose proof (B m Hm). unfold outstanding in *. lia.
+Qed.
+Print Assumptions C03_least_loaded.
+
+(* A member whose channel is not open is chosen only when no member is open. *)
+Theorem C03_down_only_if_all_down : forall s0 ls s' n ep ev, let s := run (init_state s0) ls in
+  step s Dispatch = (s', (RSent n ep, ev)) ->
+  (forall m, member s m -> outstanding s m < Penalty) ->
+  ~ is_open s n -> forall m, member s m -> ~ is_open s m.
+Proof.
+  intros s0 ls s' n ep ev s D B Hn m Hm Ho. destruct (inv_run ls _ (init_state_inv s0)) as [C _]. fold s in C.
+  cbn [step] in D. destruct (dispatch_choice s s' n ep ev C D) as (_ & _ & H3 & _).
+  pose proof (H3 Hn m Hm Ho). pose proof (B m Hm). unfold outstanding in *. lia.
+Qed.
+Print Assumptions C03_down_only_if_all_down.
+
+(* With no members at all the request fails immediately with NoMembersError and nothing changes;
+   conversely that error is only ever produced by an empty balancer. *)
+Theorem C03_no_members : forall s0 ls, let s := run (init_state s0) ls in
+  init_done s = true ->
+  (servers s = [] -> step s Dispatch = (s, (RNoMembers, []))) /\
+  (forall s' ev, step s Dispatch = (s', (RNoMembers, ev)) -> servers s = [] /\ s' = s /\ ev = []).
+Proof.
+  intros s0 ls s I. destruct (inv_run ls _ (init_state_inv s0)) as [C _]. fold s in C.
+  destruct (c_srv s C) as (_ & _ & S3). cbn [step]. unfold do_dispatch. rewrite I. cbn [negb]. split.
+  - intros E. destruct (heap s) as [|h t] eqn:Eh; [reflexivity|].
+    exfalso. assert (H : In (nep h) (servers s)) by (apply S3; left; reflexivity). rewrite E in H. destruct H.
+  - intros s' ev D. destruct (heap s) as [|h t] eqn:Eh.
+    + inversion D; subst. split; [|split; reflexivity].
+      destruct (servers s) as [|e r]; [reflexivity|]. exfalso. assert (H : In e (@nil Z)) by (apply S3; left; reflexivity). destruct H.
+    + destruct (get _ _ _ _) as [[[l1 dq1] ev1]|]; inversion D.
+Qed.
+Print Assumptions C03_no_members.
+
+(* The __Get loop always returns (its fuel, size + 1 iterations, is never exhausted). *)
+Theorem C03_get_terminates : forall s0 ls, let s := run (init_state s0) ls in
+  fst (snd (step s Dispatch)) <> RStuck.
+Proof.
+  intros s0 ls s. destruct (inv_run ls _ (init_state_inv s0)) as [C _]. fold s in C.
+  cbn [step]. apply dispatch_not_stuck. exact C.
+Qed.
+Print Assumptions C03_get_terminates.
+
+(* Non-vacuity: three members, two loaded; one goes down, the idle one leaves, requests complete out of order;
+   the next dispatch goes to the open member with fewer outstanding requests. *)
+Example C03_example : exists ls s',
+  let s := run (init_state 2) ls in
+  (forall m, member s m -> outstanding s m < Penalty) /\
+  (exists m, member s m /\ is_open s m) /\
+  step s Dispatch = (s', (RSent 1 11, [])).
+Proof.
+  exists [Init [10; 11; 12]; Dispatch; Dispatch; Dispatch; Dispatch; SetChan 0 4; Complete 1 2; Leave 12; Dispatch].
+  eexists. cbv zeta.
+  remember (run (init_state 2) _) as s eqn:Es. vm_compute in Es. subst s.
+  split; [|split].
+  - intros m _. unfold outstanding. cbn [reqs]. eapply Z.le_lt_trans; [apply out_le_len|]. vm_compute. reflexivity.
+  - exists 1. split; [vm_compute; auto|vm_compute; reflexivity].
+  - vm_compute. reflexivity.
+Qed.
